@@ -45,6 +45,14 @@ template <class PT> void run_set(vf::Ctx& c, const char* tname, const regref::Se
         std::reverse(cor.begin(), cor.end()); if (cor.size() < 3) continue;
       }
       else { for (size_t i = 0; i < n; ++i) tgtUse[(i * 5 + 1) % n] = tgt[i]; bool bij = true; { std::vector<int> seen(n, 0); for (size_t i = 0; i < n; ++i) if (seen[(i * 5 + 1) % n]++) bij = false; } if (!bij) continue; for (size_t i = 0; i < n; ++i) cor.emplace_back(i, (i * 5 + 1) % n); }
+      // index-based overloads: points no correspondence refers to must not matter (poisoned with NaN); the distance and weight fields of the
+      // correspondence records are not part of the problem (set to matcher-like values in two modes)
+      PointSet<PT> srcIdx = src, tgtIdx = tgtUse;
+      if (cm == 3 || cm == 5) {
+        std::vector<char> us(n, 0), ut(n, 0); for (auto& k : cor) { us[k.sourcePointIndex] = 1; ut[k.targetPointIndex] = 1; }
+        for (size_t i = 0; i < n; ++i) { if (!us[i]) srcIdx[i].setConstant(std::numeric_limits<S>::quiet_NaN()); if (!ut[i]) tgtIdx[i].setConstant(std::numeric_limits<S>::quiet_NaN()); }
+      }
+      if (cm == 2 || cm == 5) for (auto& k : cor) { k.squareDistanceBetweenPoints = 0.25 + 0.01 * (double)k.sourcePointIndex; k.weight = 0.5 + 0.25 * (double)(k.sourcePointIndex % 3); }
       // reference (Horn) on the data as stored in S
       std::vector<V3> rs, rt; for (auto& k : cor) { rs.push_back(tov(src[k.sourcePointIndex])); rt.push_back(tov(tgtUse[k.targetPointIndex])); }
       regref::Rigid ref = regref::horn(rs, rt, DIM);
@@ -69,9 +77,10 @@ template <class PT> void run_set(vf::Ctx& c, const char* tname, const regref::Se
         FindRigidTransformationBySVD<PT> est;
         H got;
         auto run = [&](FindRigidTransformationBySVD<PT>& e) -> H {
-          if (ov == 0) return e.find(src, tgtUse, cor);
+          if (ov == 0) return e.find(srcIdx, tgtIdx, cor);
           if (ov == 1) return e.find(src, tgtUse);
-          PreconditionedPointSet<PT> ps(src, scale), pt(tgtUse, scale); return ov == 2 ? e.find(ps, pt, cor) : e.find(ps, pt);
+          if (ov == 2) { PreconditionedPointSet<PT> ps(srcIdx, scale), pt(tgtIdx, scale); return e.find(ps, pt, cor); }
+          PreconditionedPointSet<PT> ps(src, scale), pt(tgtUse, scale); return e.find(ps, pt);
         };
         got = run(est);
         {   // the long-lived estimator (every overload in turn), a copy of it, and another long-lived estimator overwritten by assignment
@@ -127,7 +136,7 @@ std::string vf_describe(const std::string& tier) {
   o.strs("sets_2d", a).strs("sets_3d", b);
   o.str("rotations", std::string("2D: {0,+-1e-6,+-0.1,+-pi/2,+-(pi-1e-6),pi} + 71 angles every 5 deg; 3D: 6 axes x {0,1e-6,0.1,pi/2,pi-1e-6,pi} + 8 axes x {1e-3,0.5,1,2,2.5,3,pi-1e-3,pi-1e-9}") + (tier == "thorough" ? "; plus 2D every 0.5 deg (720 angles) and 3D 24 Halton axes x 16 angles up to pi-1e-4" : "") + "; perturbed data on every rotation");
   o.str("translations", "0, (0.3,-1.2,2), (1e3,-1e3,10)");
-  o.str("correspondences", "identity, reversed, shuffled order, every other (subset), target stored permuted, subset of a permuted target in reversed order");
+  o.str("correspondences", "identity, reversed, shuffled order, every other (subset), target stored permuted, subset of a permuted target in reversed order; in the subset modes the points no correspondence refers to are NaN; in two modes the records carry matcher-like distance and weight fields");
   o.str("overloads", "index-based and aligned, plain and preconditioned with scale {1e-3, 1/largest side, 1, 1e3}");
   o.str("perturbation", "deterministic Halton pattern, sigma {0, 1e-3, 0.1}");
   o.str("oracle", "proper rotation (64 eps); agreement with Horn's quaternion (3D) / closed-form (2D) solution in long double within max(64 eps n min(Ms Mt, Ms Et + Es Mt + Es Et)/(s_{d-1}+s_d), 64 eps) (M largest norms, E largest distances from the means); exact data: residuals and motion within 1e-9 (float 1e-4) relative; cases whose conditioning bound exceeds that are outside the quantifier (collinear / unresolvable in the scalar type) and counted trivial");
